@@ -592,6 +592,73 @@ fn c13_reweighted(spec: &Spec, lat: &[V], rep: &mut Report) {
 // ----------------------------------------------------------------------------------------------
 // drivers
 
+/// SE(2) / SE(3) are tuple structs around a public compound space. A user can put any components behind
+/// that field (a rotation cone for SE(3), which `new` cannot express): the wrapper must still behave
+/// exactly as the compound it holds - every operation, on the wild and the ordinary product lattice.
+fn c13_se_inner_replaced(rep: &mut Report) {
+    use oxmpl::base::space::{SE2StateSpace, SE3StateSpace};
+    use oxmpl::base::state::{SE2State, SE3State};
+    let cases: Vec<(Vec<Spec>, Vec<f64>, bool)> = vec![
+        (vec![Spec::Rv { dim: 3, bounds: Some(vec![(-5.0, 5.0); 3]), frac: None }, Spec::So3 { bounds: Some(([0.0, 0.0, 0.0, 1.0], 2.6)), frac: None }], vec![1.0, 0.5], true),
+        (vec![Spec::Rv { dim: 3, bounds: Some(vec![(-5.0, 5.0); 3]), frac: None }, Spec::So3 { bounds: Some((crate::catalog::quat_axis_angle([1.0, 0.0, 0.0], 90.0), 1.0)), frac: None }], vec![2.0, 1.0], true),
+        (vec![Spec::Rv { dim: 2, bounds: Some(vec![(-5.0, 5.0), (0.0, 1.0)]), frac: None }, Spec::So2 { bounds: Some((-1.0, 2.5)), frac: Some(0.5) }], vec![1.0, 3.0], false),
+    ];
+    for (parts, weights, is3) in cases {
+        let spec = Spec::Cmp { parts: parts.clone(), weights: weights.clone() };
+        let cmp = Cmp::build(&spec);
+        let mut states = compound_wild_lattice(&parts);
+        states.extend(compound_lattice(&parts));
+        let label = if is3 { "SE3-with-replaced-inner-space" } else { "SE2-with-replaced-inner-space" };
+        let kit = if is3 { "SE3" } else { "SE2" };
+        macro_rules! go {
+            ($sp:expr, $mk:expr, $un:expr) => {{
+                let sp = $sp;
+                let (l1, l2) = (sp.get_longest_valid_segment_length(), cmp.get_longest_valid_segment_length());
+                if l1.to_bits() != l2.to_bits() {
+                    viol(rep, "C13", kit, &format!("{label}:resolution"), &spec, format!("wrapper {l1}, the compound it holds {l2}"), json!({}));
+                }
+                for (i, v) in states.iter().enumerate() {
+                    let c = Cmp::from_v(v);
+                    let s = $mk(Cmp::from_v(v));
+                    rep.count("evaluations", 3);
+                    rep.count("replaced_inner_space_states", 1);
+                    if sp.satisfies_bounds(&s) != cmp.satisfies_bounds(&c) {
+                        viol(rep, "C13", kit, &format!("{label}:satisfies_bounds"), &spec, format!("wrapper says {}, the compound it holds says {}", sp.satisfies_bounds(&s), cmp.satisfies_bounds(&c)), json!({"a": v.json()}));
+                    }
+                    let (mut e1, mut e2) = (s.clone(), c.clone());
+                    sp.enforce_bounds(&mut e1);
+                    cmp.enforce_bounds(&mut e2);
+                    if Cmp::bits(&$un(&e1)) != Cmp::bits(&e2) {
+                        viol(rep, "C13", kit, &format!("{label}:enforce_bounds"), &spec, "wrapper and the compound it holds enforce differently".into(), json!({"a": v.json()}));
+                    }
+                    let w = &states[(i * 7 + 3) % states.len()];
+                    let (c2, s2) = (Cmp::from_v(w), $mk(Cmp::from_v(w)));
+                    if sp.distance(&s, &s2).to_bits() != cmp.distance(&c, &c2).to_bits() {
+                        viol(rep, "C13", kit, &format!("{label}:distance"), &spec, format!("wrapper {}, the compound it holds {}", sp.distance(&s, &s2), cmp.distance(&c, &c2)), json!({"a": v.json(), "b": w.json()}));
+                    }
+                    for t in [0.0, 0.3, 1.0] {
+                        let (mut o1, mut o2) = (s.clone(), c.clone());
+                        sp.interpolate(&s, &s2, t, &mut o1);
+                        cmp.interpolate(&c, &c2, t, &mut o2);
+                        if Cmp::bits(&$un(&o1)) != Cmp::bits(&o2) {
+                            viol(rep, "C13", kit, &format!("{label}:interpolate"), &spec, "wrapper and the compound it holds interpolate differently".into(), json!({"a": v.json(), "b": w.json(), "t": t}));
+                        }
+                    }
+                }
+            }};
+        }
+        if is3 {
+            let mut sp = SE3StateSpace::new(weights[1], Some(vec![(-5.0, 5.0); 3])).expect("se3");
+            sp.0 = Cmp::build(&spec);
+            go!(sp, |c| SE3State(c), |s: &SE3State| s.0.clone());
+        } else {
+            let mut sp = SE2StateSpace::new(weights[1], Some(vec![(-5.0, 5.0), (0.0, 1.0), (-1.0, 2.5)])).expect("se2");
+            sp.0 = Cmp::build(&spec);
+            go!(sp, |c| SE2State(c), |s: &SE2State| s.0.clone());
+        }
+    }
+}
+
 fn primitive_spaces(thorough: bool) -> Vec<(Spec, Vec<V>)> {
     let mut v = Vec::new();
     for n in [1usize, 2, 3, 6] {
@@ -778,6 +845,17 @@ pub fn run(prop: &'static str, tier: &'static str) -> i32 {
             a.merge(b);
             a
         });
+    let mut rep = rep;
+    if prop == "C13" {
+        match crate::explore::guarded(|| {
+            let mut r = Report::new();
+            c13_se_inner_replaced(&mut r);
+            r
+        }) {
+            Ok(r) => rep.merge(r),
+            Err(c) => rep.engine_error(format!("SE wrappers with a replaced inner space: {c:?}")),
+        }
+    }
     let meta = CheckMeta {
         prop,
         tier,
@@ -798,7 +876,7 @@ pub fn run(prop: &'static str, tier: &'static str) -> i32 {
         must_be_positive: match prop {
             "C09" => vec!["pairs", "triples", "representation_pairs"],
             "C10" => vec!["antipodal_pairs"],
-            _ => vec!["sampling_comparisons", "wild_bounds_states", "wild_enforce_changed", "reweighted_spaces"],
+            _ => vec!["sampling_comparisons", "wild_bounds_states", "wild_enforce_changed", "reweighted_spaces", "replaced_inner_space_states"],
         },
     };
     finish(&meta, rep, t0)
